@@ -10,11 +10,6 @@ pub uninterp spec fn ord_le<T>(a: T, b: T) -> bool;
 pub open spec fn sorted_le<T>(s: Seq<T>) -> bool { forall|i: int, j: int| 0 <= i <= j < s.len() ==> ord_le(s[i], s[j]) }
 pub assume_specification<T: Ord> [<[T]>::sort] (s: &mut [T])
     ensures final(s)@.to_multiset() == old(s)@.to_multiset(), sorted_le(final(s)@), final(s)@.len() == old(s)@.len();
-// Vec::dedup removes consecutive repeated elements (so that an edit using it stays inside the verifier's reach)
-pub open spec fn dedup_spec<T>(s: Seq<T>) -> Seq<T> decreases s.len() {
-    if s.len() <= 1 { s } else if s[s.len() - 1] == s[s.len() - 2] { dedup_spec(s.drop_last()) } else { dedup_spec(s.drop_last()).push(s.last()) } }
-pub assume_specification<T: PartialEq, A: core::alloc::Allocator> [Vec::<T, A>::dedup] (v: &mut Vec<T, A>)
-    ensures final(v)@ == dedup_spec(old(v)@);
 // the all-zero hash (address reported for a predicate that cannot be encoded)
 pub uninterp spec fn zero_hash() -> [u8; 32];
 pub broadcast axiom fn axiom_zero_hash(i: int) ensures 0 <= i < 32 ==> #[trigger] zero_hash()@[i] == 0u8;
